@@ -8,7 +8,7 @@ import props.C02 as C02
 RULE = ('inputs: corpus, g2 fragments biased to ( ) [ ] CASE END IF "END IF" FOR "END LOOP" BEGIN in arbitrary (also unbalanced) interleavings, grammar scripts and blocks; '
         'spans of the six classes compared with an independent stack matcher over the flattened leaves; non-trivial = distinct input with at least one opener or closer')
 ASSUMPTIONS = C02.ASSUMPTIONS
-PARTIAL = ['end-to-end clause (later passes neither dissolve nor create the six classes; only trailing comments are appended) is checked by the oracle; the theorem covers _group_matching itself']
+PARTIAL = ['that what align_comments appends is exactly whitespace + one Comment group is oracle-checked; matching refinement and preservation of the six classes by all later passes are theorems']
 
 def kw(vals):
     vs = set(vals)
